@@ -1,5 +1,6 @@
 """C03 - the generated Python module exposes exactly the declared API (Engines F, E)."""
 from .. import rules_pybind as RP
+from .. import rules_alias as RA
 
 ID = "C03"
 EXPLANATION = (
@@ -10,7 +11,7 @@ EXPLANATION = (
     "members into) is bound to a slot of the class template (enums at the dispatch site). A3: wrap_namespace "
     "returns empty before any emission when the namespace path is not prefix-compatible with the top "
     "namespace; the prefix test has the normal form 'all positions below min(len) equal'; above the top "
-    "namespace only includes and recursion contribute. A7: every slice/length comparison of a namespace path "
+    "namespace only includes and recursion contribute. Every recursive call is made per child namespace in content order (a re-opened namespace keeps all its blocks). A8: no in-place modification of anything but freshly created values inside the emitter - in particular its configuration lists (keyword list, ignore list) are never extended through an alias. A7: every slice/length comparison of a namespace path "
     "is relative to len(top_module_namespaces). A4: the def_submodule statement precedes the content loop, is "
     "emitted only strictly below the top namespace and once per module variable. A5: everything emitted for a "
     "class at the dispatch site is suppressed when the class is ignored. A6: the Python-visible name of every "
@@ -26,7 +27,10 @@ def run(ctx, rep):
     rep.run(RP.rule_node_kinds, ctx, rep, "A1")
     rep.run(RP.rule_member_kinds, ctx, rep, "A2")
     rep.run(RP.rule_top_namespace_filter, ctx, rep, "A3")
+    rep.run(RP.rule_all_children_visited, ctx, rep, "A3")
     rep.run(RP.rule_depth_relative, ctx, rep, "A7")
     rep.run(RP.rule_submodule_once, ctx, rep, "A4")
     rep.run(RP.rule_ignore_dominates, ctx, rep, "A5")
     rep.run(RP.rule_keyword_escaping, ctx, rep, "A6")
+    # A8: the emitter's configuration (keyword list, ignore list, ...) is never modified while wrapping
+    rep.run(RA.rule_mutate_only_fresh, ctx, rep, "A8", "gtwrap/pybind_wrapper", {}, min_sites=3)
